@@ -290,8 +290,8 @@ func exploreAll(l *Loaded, todo []EntryOpts, rc RunConfig, workers int) []*entry
 		if len(res.Solver.Errors) > 0 {
 			res.Inconclusive = append(res.Inconclusive, "solver error: "+res.Solver.Errors[0])
 		}
-		if len(res.Violations) > 1 {
-			res.Violations = res.Violations[:1]
+		if len(res.Violations) > maxAlternatives {
+			res.Violations = res.Violations[:maxAlternatives]
 		}
 		halted := p.stopped()
 		if len(res.Violations) == 0 && len(res.Inconclusive) == 0 && !halted {
@@ -496,12 +496,19 @@ func main() {
 		}
 	}
 	for _, r := range results {
-		for _, v := range r.Violations {
+		// several counterexamples of one entry are alternatives: the first that reproduces natively is the
+		// one reported; only if none does is the entry UNCONFIRMED
+		anyConfirmed := false
+		var unconfirmed []string
+		for vi, v := range r.Violations {
+			if anyConfirmed {
+				break
+			}
 			dir := ""
 			confirmed := false
 			detail := ""
 			if *outDir != "" {
-				dir = filepath.Join(*outDir, r.Opts.Property, fmt.Sprintf("%s-%d", r.Opts.Name, len(violLines)))
+				dir = filepath.Join(*outDir, r.Opts.Property, fmt.Sprintf("%s-%d", r.Opts.Name, len(violLines)+len(unconfirmed)))
 				os.MkdirAll(dir, 0o755)
 				writeCounterexample(dir, v, r, lc, *rtNative, splitList(*nativeExtra), l)
 				if !*noReplay {
@@ -510,6 +517,7 @@ func main() {
 				}
 			}
 			if confirmed || *noReplay {
+				anyConfirmed = true
 				violLines = append(violLines, fmt.Sprintf("VIOLATION property=%s replay=%s", r.Opts.Property, dir))
 				fmt.Printf("  entry=%s label=%s kind=%s: %s\n", r.Opts.Name, v.Label, v.Kind, v.Msg)
 				for _, in := range v.Inputs {
@@ -519,14 +527,20 @@ func main() {
 					exit = 1
 				}
 			} else {
-				fmt.Printf("UNCONFIRMED property=%s entry=%s label=%s kind=%s: %s (replay dir %s)\n  %s\n",
-					r.Opts.Property, r.Opts.Name, v.Label, v.Kind, v.Msg, dir, detail)
+				msg := fmt.Sprintf("UNCONFIRMED property=%s entry=%s label=%s kind=%s: %s (replay dir %s; counterexample %d of %d)\n  %s\n",
+					r.Opts.Property, r.Opts.Name, v.Label, v.Kind, v.Msg, dir, vi+1, len(r.Violations), detail)
 				for _, in := range v.Inputs {
-					fmt.Printf("    %s (%s %s) = %s\n", in.Name, in.Kind, in.Tag, in.Val)
+					msg += fmt.Sprintf("    %s (%s %s) = %s\n", in.Name, in.Kind, in.Tag, in.Val)
 				}
-				if exit == 0 {
-					exit = 2
-				}
+				unconfirmed = append(unconfirmed, msg)
+			}
+		}
+		if !anyConfirmed && len(unconfirmed) > 0 {
+			for _, m := range unconfirmed {
+				fmt.Print(m)
+			}
+			if exit == 0 {
+				exit = 2
 			}
 		}
 		for _, m := range r.Inconclusive {
